@@ -588,3 +588,128 @@ Proof.
     rewrite map_nth. reflexivity.
   - rewrite nth_overflow by (rewrite map_length; exact H). reflexivity.
 Qed.
+
+(** ---- datagrams are lost only on a failed send or a reset of that link ---- *)
+Definition lostl (f : list (cpy * fate)) : list cpy := map fst (filter (fun x => negb (is_sent x)) f).
+Lemma lostl_app : forall f g, lostl (f ++ g) = lostl f ++ lostl g.
+Proof. intros. unfold lostl. rewrite filter_app, map_app. reflexivity. Qed.
+Lemma lostl_sent : forall q, lostl (map (tag Sent) q) = [].
+Proof. induction q as [|e t IH]; cbn; [reflexivity|exact IH]. Qed.
+Lemma lostl_lost : forall q, lostl (map (tag Lost) q) = map cpy_of q.
+Proof. induction q as [|e t IH]; cbn; [reflexivity|]. unfold lostl in IH. rewrite IH. reflexivity. Qed.
+
+(** may link j lose datagrams in this op? *)
+Definition may_lose (o : op) (j : nat) : Prop :=
+  match o with
+  | Client _ _ _ _ _ orc | FlushTick _ orc => has_fail (orc_of orc j) = true
+  | Reset i _ => i = j
+  | House eff _ => exists k, nth j eff HKeep = HReset k
+  | _ => False
+  end.
+
+Lemma qaf_lost : forall now e orc l l' w,
+  queue_and_flush now e orc l = (l', w) -> lost_of l' <> lost_of l -> has_fail orc = true.
+Proof.
+  intros now e orc l l' w H Hne. apply qaf_spec in H.
+  destruct H as (_ & _ & _ & [(-> & _)|(k & _ & _ & _ & _ & Hf & [(-> & _)|(_ & Hfail & _)])]).
+  - exfalso. apply Hne. reflexivity.
+  - exfalso. apply Hne. unfold lost_of. fold (lostl (fates l')). fold (lostl (fates l)).
+    cbn zeta in Hf. rewrite Hf, !lostl_app, lostl_sent, lostl_lost, skipn_all. cbn. rewrite app_nil_r. reflexivity.
+  - exact Hfail.
+Qed.
+
+Lemma step_link_lost : forall hw o j l,
+  lost_of (fst (step_link hw o j l)) <> lost_of l -> may_lose o j.
+Proof.
+  intros hw o j l. destruct o as [now pkt sel reg gated orc|now orc|i r|i k|i b|eff ctl|ctl];
+    cbn [step_link may_lose].
+  - destruct pkt as [|b0 pkt']; [intro H; exfalso; apply H; reflexivity|].
+    destruct sel as [i|]; [|intro H; exfalso; apply H; reflexivity].
+    destruct (Nat.eqb j i).
+    + destruct (queue_and_flush _ _ _ l) as [l' w] eqn:Hq. cbn [fst]. eapply qaf_lost; eassumption.
+    + destruct (reg && is_some _ && nth j gated false && connected l); [|intro H; exfalso; apply H; reflexivity].
+      destruct (STALL_PROBE_ONE_IN_N <=? ctr l + 1); [|intro H; exfalso; apply H; reflexivity].
+      destruct (queue_and_flush _ _ _ (set_ctr 0 l)) as [l' w] eqn:Hq. cbn [fst].
+      intro H. eapply qaf_lost; [eassumption|exact H].
+  - destruct (hw && has_queued l && has_io l); [|intro H; exfalso; apply H; reflexivity].
+    destruct (flush_link now (orc_of orc j) l) as [[l2 out] ok] eqn:Hf. cbn [fst].
+    apply flush_link_spec in Hf. destruct Hf as (k & _ & _ & -> & Hok & Hbad).
+    destruct ok; [|intros _; apply Hbad; reflexivity].
+    intro H. exfalso. apply H. unfold lost_of. cbn [fates upd_q].
+    fold (lostl (fates l)). change (map fst (filter (fun x => negb (is_sent x)) ?f)) with (lostl f).
+    rewrite (Hok eq_refl), !lostl_app, lostl_sent, lostl_lost, skipn_all. cbn. rewrite app_nil_r. reflexivity.
+  - destruct (Nat.eqb j i); intro H; exfalso; apply H; reflexivity.
+  - destruct (Nat.eqb j i) eqn:E; [intros _; symmetry; apply Nat.eqb_eq, E|intro H; exfalso; apply H; reflexivity].
+  - destruct (Nat.eqb j i); intro H; exfalso; apply H; reflexivity.
+  - cbn [fst]. destruct (nth j eff HKeep) as [|r|k]; [intro H; exfalso; apply H; reflexivity
+      |intro H; exfalso; apply H; reflexivity|intros _; exists k; reflexivity].
+  - intro H; exfalso; apply H; reflexivity.
+Qed.
+
+(** a routed datagram goes to one uplink only *)
+Lemma routed_one_uplink : forall o j1 j2, j1 <> j2 -> routed_to_op j1 o = [] \/ routed_to_op j2 o = [].
+Proof.
+  intros o j1 j2 Hne. destruct o as [now pkt sel reg gated orc| | | | | |]; try (left; reflexivity).
+  destruct pkt as [|b p]; [left; reflexivity|]. destruct sel as [i|]; [|left; reflexivity].
+  cbn. destruct (Nat.eqb j1 i) eqn:E1; [|left; reflexivity].
+  destruct (Nat.eqb j2 i) eqn:E2; [|right; reflexivity].
+  apply Nat.eqb_eq in E1, E2. congruence.
+Qed.
+
+(** ---- the ghost wire log grows exactly by what the step emits ---- *)
+Definition wirel (f : list (cpy * fate)) : list cpy := map fst (filter is_sent f).
+Lemma wirel_app : forall f g, wirel (f ++ g) = wirel f ++ wirel g.
+Proof. intros. unfold wirel. rewrite filter_app, map_app. reflexivity. Qed.
+Lemma wirel_sent : forall q, wirel (map (tag Sent) q) = map cpy_of q.
+Proof. induction q as [|e t IH]; cbn; [reflexivity|]. unfold wirel in IH. rewrite IH. reflexivity. Qed.
+Lemma wirel_lost : forall q, wirel (map (tag Lost) q) = [].
+Proof. induction q as [|e t IH]; cbn; [reflexivity|exact IH]. Qed.
+Lemma map_fst_cpy : forall q, map fst (map cpy_of q) = map q_d q.
+Proof. intro q. rewrite map_map. reflexivity. Qed.
+
+Lemma qaf_wire : forall now e orc l l' w,
+  queue_and_flush now e orc l = (l', w) -> map fst (wire_of l') = map fst (wire_of l) ++ w.
+Proof.
+  intros now e orc l l' w H. apply qaf_spec in H.
+  destruct H as (_ & _ & _ & [(-> & -> & _)|(k & _ & _ & -> & _ & Hf & _)]).
+  - rewrite app_nil_r. reflexivity.
+  - cbn zeta in Hf. unfold wire_of. fold (wirel (fates l')). fold (wirel (fates l)).
+    rewrite Hf, !wirel_app, wirel_sent, wirel_lost, app_nil_r, map_app, map_fst_cpy. reflexivity.
+Qed.
+
+Definition emits_client_data (o : op) : bool :=
+  match o with House _ _ | Other _ => false | _ => true end.
+
+Lemma step_link_wire : forall hw o j l,
+  if emits_client_data o
+  then map fst (wire_of (fst (step_link hw o j l))) = map fst (wire_of l) ++ snd (step_link hw o j l)
+  else wire_of (fst (step_link hw o j l)) = wire_of l.
+Proof.
+  intros hw o j l. destruct o as [now pkt sel reg gated orc|now orc|i r|i k|i b|eff ctl|ctl];
+    cbn [step_link emits_client_data].
+  - destruct pkt as [|b0 pkt']; [cbn; rewrite app_nil_r; reflexivity|].
+    destruct sel as [i|]; [|cbn; rewrite app_nil_r; reflexivity].
+    destruct (Nat.eqb j i).
+    + destruct (queue_and_flush _ _ _ l) as [l' w] eqn:Hq. cbn [fst snd]. eapply qaf_wire; eassumption.
+    + destruct (reg && is_some _ && nth j gated false && connected l); [|cbn; rewrite app_nil_r; reflexivity].
+      destruct (STALL_PROBE_ONE_IN_N <=? ctr l + 1); [|cbn; rewrite app_nil_r; reflexivity].
+      destruct (queue_and_flush _ _ _ (set_ctr 0 l)) as [l' w] eqn:Hq. cbn [fst snd].
+      apply qaf_wire in Hq. exact Hq.
+  - destruct (hw && has_queued l && has_io l); [|cbn; rewrite app_nil_r; reflexivity].
+    destruct (flush_link now (orc_of orc j) l) as [[l2 out] ok] eqn:Hf. cbn [fst snd].
+    apply flush_link_spec in Hf. destruct Hf as (k & _ & -> & -> & _).
+    unfold wire_of. cbn [fates upd_q]. fold (wirel (fates l)).
+    change (map fst (filter is_sent ?f)) with (wirel f).
+    rewrite !wirel_app, wirel_sent, wirel_lost, app_nil_r, map_app, map_fst_cpy. reflexivity.
+  - destruct (Nat.eqb j i); cbn; rewrite app_nil_r; reflexivity.
+  - destruct (Nat.eqb j i); [|cbn; rewrite app_nil_r; reflexivity].
+    cbn [fst snd]. rewrite app_nil_r. unfold wire_of.
+    destruct k; cbn [reset_link set_ctr set_conn drop_queue upd_q fates];
+      change (map fst (filter is_sent ?f)) with (wirel f); rewrite wirel_app, wirel_lost, app_nil_r; reflexivity.
+  - destruct (Nat.eqb j i); cbn; rewrite app_nil_r; reflexivity.
+  - cbn [fst]. destruct (nth j eff HKeep) as [|r|k]; [reflexivity|reflexivity|].
+    unfold wire_of.
+    destruct k; cbn [reset_link set_ctr set_conn drop_queue upd_q fates];
+      change (map fst (filter is_sent ?f)) with (wirel f); rewrite wirel_app, wirel_lost, app_nil_r; reflexivity.
+  - reflexivity.
+Qed.
